@@ -7,6 +7,7 @@ import (
 	"io"
 	"strings"
 
+	"github.com/freeconf/yang/fc"
 	"github.com/freeconf/yang/node"
 	"github.com/freeconf/yang/val"
 
@@ -69,7 +70,10 @@ func JsonListReader(list []interface{}) node.Node {
 			if r.First {
 				keyFields := r.Meta.KeyMeta()
 				for i := 0; i < len(list); i++ {
-					candidate := list[i].(map[string]interface{})
+					candidate, isObj := list[i].(map[string]interface{})
+					if !isObj {
+						return nil, nil, fmt.Errorf("%w. expected an object for each entry of list '%s'", fc.BadRequestError, r.Meta.Ident())
+					}
 					if jsonKeyMatches(keyFields, candidate, key) {
 						return JsonContainerReader(candidate), r.Key, nil
 					}
@@ -77,7 +81,10 @@ func JsonListReader(list []interface{}) node.Node {
 			}
 		} else {
 			if r.Row < len(list) {
-				container := list[r.Row].(map[string]interface{})
+				container, isObj := list[r.Row].(map[string]interface{})
+				if !isObj {
+					return nil, nil, fmt.Errorf("%w. expected an object for each entry of list '%s'", fc.BadRequestError, r.Meta.Ident())
+				}
 				if len(r.Meta.KeyMeta()) > 0 {
 					keyData := make([]interface{}, len(r.Meta.KeyMeta()))
 					for i, kmeta := range r.Meta.KeyMeta() {
@@ -138,9 +145,17 @@ func JsonContainerReader(container map[string]interface{}) node.Node {
 		}
 		if value, found := fqkGet(r.Meta, container); found {
 			if meta.IsList(r.Meta) {
-				return JsonListReader(value.([]interface{})), nil
+				list, isList := value.([]interface{})
+				if !isList {
+					return nil, fmt.Errorf("%w. expected an array for list '%s'", fc.BadRequestError, r.Meta.Ident())
+				}
+				return JsonListReader(list), nil
 			}
-			return JsonContainerReader(value.(map[string]interface{})), nil
+			obj, isObj := value.(map[string]interface{})
+			if !isObj {
+				return nil, fmt.Errorf("%w. expected an object for container '%s'", fc.BadRequestError, r.Meta.Ident())
+			}
+			return JsonContainerReader(obj), nil
 		}
 		return
 	}
@@ -173,6 +188,10 @@ func JsonContainerReader(container map[string]interface{}) node.Node {
 
 func jsonKeyMatches(keyFields []meta.Leafable, candidate map[string]interface{}, key []val.Value) bool {
 	for i, field := range keyFields {
+		if i >= len(key) {
+			// fewer key values than key leafs: that is not this entry
+			return false
+		}
 		if fqkGetOrNil(field, candidate) != key[i].String() {
 			return false
 		}
